@@ -196,3 +196,21 @@ def validate_trace(module, events, tag, timeout=1800, deque=False):
     res = run("trace/" + module, workers=1, env={"TRACE_FILE": path}, timeout=timeout, props=props, tag=tag)
     bad = printed(res, "BAD")
     return res, bad, path
+
+
+def apalache(module, init, inv, length, timeout=600):
+    """Run apalache-mc check on spec/apalache/<module>.tla; True iff EXITCODE: OK."""
+    import subprocess
+    path = os.path.join(SPEC, "apalache", module + ".tla")
+    outdir = os.path.join(OUT, "apa-%d" % os.getpid())
+    cmd = ["apalache-mc", "check", "--init=" + init, "--inv=" + inv, "--length=%d" % length, "--out-dir=" + outdir, path]
+    try:
+        p = subprocess.run(cmd, stdout=subprocess.PIPE, stderr=subprocess.STDOUT, timeout=timeout, text=True, cwd=os.path.dirname(path))
+    except subprocess.TimeoutExpired:
+        raise TLCFailure("apalache timeout: " + " ".join(cmd))
+    finally:
+        shutil.rmtree(outdir, ignore_errors=True)
+    ok = "EXITCODE: OK" in p.stdout
+    if not ok and "EXITCODE: ERROR (12)" not in p.stdout:
+        raise TLCFailure("apalache failed: %s\n%s" % (" ".join(cmd), p.stdout[-1500:]))
+    return ok, " ".join(cmd)
